@@ -20,7 +20,8 @@ ENGINE = ('E2 certificate + BMC + reachability: compiled wait machine (real nmfu
 
 
 def work(item):
-    pat, form, src, do_bmc = item
+    pat, form, src, do_bmc = item[:4]
+    flags = item[4] if len(item) > 4 else FLAGS
     refre.reset()
     info = {}
 
@@ -41,9 +42,9 @@ def work(item):
         if r2 == 'sat':
             st.discharged += 1  # reach() counts an obligation; for the twin, sat is the expected, decided answer
             info['marker_input'] = dfz.hexs(inp2)
-    r = dfz.analyse(src, FLAGS, slack=True, compare_accept=False, end_policy=dfz.end_policy_wait, K=K, do_bmc=do_bmc, obligation='first-match',
+    r = dfz.analyse(src, flags, slack=True, compare_accept=False, end_policy=dfz.end_policy_wait, K=K, do_bmc=do_bmc, obligation='first-match',
                     extra={'pattern': pat, 'form': form}, post=post)
-    r['pat'], r['form'], r['info'] = pat, form, info
+    r['pat'], r['form'], r['info'] = pat, form + (' -O3' if flags else ''), info
     if r['violations']:
         try:
             t = nm.N.parser.parse('parser { %s; }' % pat, start='start')
@@ -62,6 +63,9 @@ def items_for(tier):
     for i, p in enumerate(pats):
         for form, src in gen_re.wait_programs(p):
             items.append((p, form, src, True if tier == 'quick' else (i % 2 == 0 or form in ('bare', 'try'))))
+            # the restart structure must survive optimisation: the bare and try forms are also compiled at -O3
+            if form in ('bare', 'try') and (tier != 'quick' or i % 2 == 0):
+                items.append((p, form, src, False, ('-O3',)))
     return items, len(pats)
 
 
